@@ -359,6 +359,16 @@ def run(tier: str, only=None) -> int:
         big = H["r"] + H["w"] >= 3
         harness.run_exploration(rep, PID, name + "/sync", CloseScn, P, {"ps": 1, "free": 1} if big and tier == "quick" else b_sync, max_execs=cap)
         harness.run_exploration(rep, PID, name + "/stmt", CloseScn, P, b_stmt, stmt=stmt, max_execs=cap)
+    # the same histories on the other transports and worker exec models (default schedule + 1 preemption)
+    for i, H in enumerate(histories(tier)):
+        if tier == "quick" and (H["n"], H["r"], H["w"]) != (2, 2, 1):
+            continue
+        for tr, be in (("socket", "thread"), ("via", "thread"), ("popen", "main_thread_only"), ("popen", "gevent")):
+            name = f"close/{i}:{H['dir']}:{H['kind']}:n{H['n']}r{H['r']}w{H['w']}/{tr}:{be}"
+            if only and only not in name:
+                continue
+            P = dict(H, transport=tr, backend=be)
+            harness.run_exploration(rep, PID, name, CloseScn, P, {"ps": 1, "free": 0}, max_execs=cap)
     if not only or "both" in only:
         P = {"transport": "popen", "backend": "thread"}
         harness.run_exploration(rep, PID, "both/sync", BothCloseScn, P, b_sync, max_execs=cap)
